@@ -661,10 +661,16 @@ func (prop) Run(t *testing.T, tape *kernel.Tape, sc kernel.Scenario) *kernel.Res
 	if sc.Name == "sweep" {
 		p = sweepPlan(sc)
 	} else {
+		if tape.Choose(25, "overlap-mode") == 24 {
+			return runOverlap(t, tape)
+		}
 		p = genPlan(tape)
 	}
 	res.Summary = p.String()
 	c := &run{t: t, env: env, tape: tape, p: p, res: res}
+	if sc.Name != "sweep" && tape.Bool(6, "same-table-twice") {
+		c.sameTableTwice()
+	}
 	text := []byte(p.Text)
 	var produced *outcome
 	if p.Mode != modeConsume {
